@@ -502,7 +502,7 @@ func (g *Prog) simple(d int) *gt.T {
 			return gt.Call("boom")
 		}
 		if g.ExitCalls && r.Intn(6) == 0 {
-			return gt.Call("exit")
+			return ExitStmt(r)
 		}
 		if len(g.UseTargets) > 0 && r.Intn(2) == 0 {
 			return gt.Call("use", gt.Str(g.pick(g.UseTargets)))
@@ -583,6 +583,21 @@ func (g *Prog) containerStmt(d int) *gt.T {
 }
 
 var counters = []string{"i", "j", "k"}
+
+// ExitStmt is a statement that calls exit() in one of its spellings: as a
+// call statement, as the source of an assignment, parenthesised, or inside a
+// list literal. After any of them no later statement of the script runs.
+func ExitStmt(r *rand.Rand) *gt.T {
+	switch r.Intn(6) {
+	case 0:
+		return gt.Assign("=", gt.Ident("zx"), gt.Call("exit"))
+	case 1:
+		return gt.Paren(gt.Call("exit"))
+	case 2:
+		return gt.List(gt.Call("exit"))
+	}
+	return gt.Call("exit")
+}
 
 // Block generates n statements (with probes) in a fresh scope.
 func (g *Prog) Block(n, d int) []*gt.T {
